@@ -20,6 +20,7 @@ STRATA = [
     ("sums", 250, 4000),
     ("anonymous", 250, 4000),
     ("mixed", 300, 5000),
+    ("planted-unique", 600, 10000),
     ("hints", 300, 5000),
 ]
 REQUIRED_EVENTS = {"any": ["cp.solution-checked", "cp.infeasible-checked", "cp.l2.encode_constraint", "cp.l2.propagate_constraint",
@@ -69,7 +70,7 @@ def setup():
 def gen(stratum, rng, tier):
     base = stratum
     if stratum == "hints":
-        base = rng.choice(["supported", "grammar", "global", "mixed", "sums"])
+        base = rng.choice(["supported", "grammar", "global", "mixed", "sums", "planted-unique"])
     spec = cpgen.gen_spec(base, rng)
     case = {"spec": spec, "hints": [None], "limits": rng.sample([1, 3, 100], 2)}
     if stratum == "hints":
